@@ -1646,6 +1646,10 @@ class GroupBy:
 
         return_polars = self._values_is_polars(type_list)
 
+        if self.key_is_chunked:
+            # the kernel needs codes into result_index, not the per-chunk codes
+            self._unify_group_key_chunks()
+
         if index_by_groups:
             indexer = self._group_sort_indexer
             result_index = self._build_group_sorted_index(common_index)
@@ -2318,6 +2322,10 @@ class GroupBy:
         max_diff: float | int
             The threshold distance for forming a new sub-group
         """
+        if self.key_is_chunked:
+            # the kernel needs codes into result_index, not the per-chunk codes
+            self._unify_group_key_chunks()
+
         return numba_funcs.group_nearby_members(
             group_key=self.group_ikey,
             values=values,
